@@ -135,6 +135,44 @@ def main(tier_: str) -> int:
             la_urls = ['https://lic.example.test/rights?cfg=a&b=c', 'https://lic.example.test/<x>"y"&%20z', 'http://h/p?k={default_kid}',
                        PlayReady.TEST_LA_URL]
             with da.app.test_request_context('/'):
+                def one_pro(hv, nk, la, ks, order, keys):
+                    pr = PlayReady(la_url=la, header_version=hv)
+                    try:
+                        pro = pr.generate_pro(la, ks[0].hex(), keys, None)
+                    except Exception as err:      # noqa: BLE001
+                        lines.append({'ev': 'pro_error', 'hv': hv, 'nk': nk, 'err': f'{type(err).__name__}: {err}'[:200]})
+                        return
+                    rp = read_pro(pro)
+                    # 4.0 / 4.1 headers list the default key only; 4.2 / 4.3 list the key set in its own order
+                    want_kids = ks[:1] if rp['version'] in ('4.0.0.0', '4.1.0.0') else order
+                    cfgs = ''
+                    try:
+                        exp_la = la.format(cfgs='{cfgs}', default_kid=ks[0].hex(), kids='{kids}')
+                    except Exception:      # noqa: BLE001
+                        exp_la = la
+                    got_la = rp['la_url'] or ''
+                    # {cfgs} / {kids} expansions are not constrained here: compare the parts around them
+                    la_eq = 1 if (got_la == exp_la or ('{cfgs}' in exp_la and got_la.startswith(exp_la.split('{cfgs}')[0]))) else 0
+                    if not rp.get('wf') or (rp.get('la_url_xml') or '') != got_la:
+                        la_eq = 0        # not well-formed XML, or the XML reading of LA_URL differs from the textual one
+                    # the {cfgs} format field names every key of the set inside the licence URL:
+                    # (kid:<base64 of the little-endian GUID>,persist:false,sl:<n>[,contentkey:<base64 key>]),...
+                    has_cfgs = 1 if '{cfgs}' in la else 0
+                    cfg_kids, cfg_keys = [], []
+                    if has_cfgs:
+                        for mm in re.finditer(r'\(kid:([A-Za-z0-9+/=]+)((?:,[a-z]+:[^,)]*)*)\)', got_la):
+                            try:
+                                cfg_kids.append(list(base64.b64decode(mm.group(1))))
+                                ck = re.search(r'contentkey:([A-Za-z0-9+/=]+)', mm.group(2))
+                                cfg_keys.append(list(base64.b64decode(ck.group(1))) if ck else [])
+                            except Exception:      # noqa: BLE001
+                                cfg_kids.append([])
+                                cfg_keys.append([])
+                    lines.append({'ev': 'pro', 'hv': str(hv), 'version': rp['version'], 'kids': [list(k) for k in want_kids],
+                                  'has_cfgs': has_cfgs, 'cfg_kids': cfg_kids, 'cfg_keys': cfg_keys,
+                                  'all_kids': [list(k) for k in order], 'all_keys': [list(keys[k.hex()].KEY.raw) for k in order],
+                                  'keys': [list(keys[k.hex()].KEY.raw) for k in want_kids], 'la_eq': la_eq,
+                                  'pro_kids': rp['kids'], 'pro_checksums': rp['checksums'], 'la_url': la, 'got_la_url': got_la})
                 for hv in (None, 4.0, 4.1, 4.2, 4.3):
                     for nk in (1, 2, 3):
                         for la in (la_urls if tier_ == 'thorough' else la_urls[:1] + la_urls[-1:] + rng.sample(la_urls[1:-1], 1)):      # the '&' and the {cfgs} URL always
@@ -149,43 +187,19 @@ def main(tier_: str) -> int:
                             for k in order:
                                 key = bytes(PlayReady.generate_content_key(k))
                                 keys[k.hex()] = SimpleNamespace(KID=KeyMaterial(raw=k), KEY=KeyMaterial(raw=key), ALG='AESCTR', computed=False)
-                            pr = PlayReady(la_url=la, header_version=hv)
-                            try:
-                                pro = pr.generate_pro(la, ks[0].hex(), keys, None)
-                            except Exception as err:      # noqa: BLE001
-                                lines.append({'ev': 'pro_error', 'hv': hv, 'nk': nk, 'err': f'{type(err).__name__}: {err}'[:200]})
-                                continue
-                            rp = read_pro(pro)
-                            # 4.0 / 4.1 headers list the default key only; 4.2 / 4.3 list the key set in its own order
-                            want_kids = ks[:1] if rp['version'] in ('4.0.0.0', '4.1.0.0') else order
-                            cfgs = ''
-                            try:
-                                exp_la = la.format(cfgs='{cfgs}', default_kid=ks[0].hex(), kids='{kids}')
-                            except Exception:      # noqa: BLE001
-                                exp_la = la
-                            got_la = rp['la_url'] or ''
-                            # {cfgs} / {kids} expansions are not constrained here: compare the parts around them
-                            la_eq = 1 if (got_la == exp_la or ('{cfgs}' in exp_la and got_la.startswith(exp_la.split('{cfgs}')[0]))) else 0
-                            if not rp.get('wf') or (rp.get('la_url_xml') or '') != got_la:
-                                la_eq = 0        # not well-formed XML, or the XML reading of LA_URL differs from the textual one
-                            # the {cfgs} format field names every key of the set inside the licence URL:
-                            # (kid:<base64 of the little-endian GUID>,persist:false,sl:<n>[,contentkey:<base64 key>]),...
-                            has_cfgs = 1 if '{cfgs}' in la else 0
-                            cfg_kids, cfg_keys = [], []
-                            if has_cfgs:
-                                for mm in re.finditer(r'\(kid:([A-Za-z0-9+/=]+)((?:,[a-z]+:[^,)]*)*)\)', got_la):
-                                    try:
-                                        cfg_kids.append(list(base64.b64decode(mm.group(1))))
-                                        ck = re.search(r'contentkey:([A-Za-z0-9+/=]+)', mm.group(2))
-                                        cfg_keys.append(list(base64.b64decode(ck.group(1))) if ck else [])
-                                    except Exception:      # noqa: BLE001
-                                        cfg_kids.append([])
-                                        cfg_keys.append([])
-                            lines.append({'ev': 'pro', 'hv': str(hv), 'version': rp['version'], 'kids': [list(k) for k in want_kids],
-                                          'has_cfgs': has_cfgs, 'cfg_kids': cfg_kids, 'cfg_keys': cfg_keys,
-                                          'all_kids': [list(k) for k in order], 'all_keys': [list(keys[k.hex()].KEY.raw) for k in order],
-                                          'keys': [list(keys[k.hex()].KEY.raw) for k in want_kids], 'la_eq': la_eq,
-                                          'pro_kids': rp['kids'], 'pro_checksums': rp['checksums'], 'la_url': la, 'got_la_url': got_la})
+                            one_pro(hv, nk, la, ks, order, keys)
+                # the key of a key id is replaced (key edit page, or a computed key made explicit) and the same object is asked
+                # for again: it carries the checksum of the key now in force
+                import hashlib as _hl
+                for hv in (None, 4.0, 4.1, 4.2, 4.3):
+                    for la in (la_urls[:1], la_urls[-1:])[0 if hv != 4.2 else 1]:
+                        ks = rng.sample(kids[-8:], 2)
+                        for gen in (0, 1, 2):
+                            keys = {}
+                            for k in ks:
+                                key = bytes(PlayReady.generate_content_key(k)) if gen == 0 else _hl.sha256(k + bytes([gen])).digest()[:16]
+                                keys[k.hex()] = SimpleNamespace(KID=KeyMaterial(raw=k), KEY=KeyMaterial(raw=key), ALG='AESCTR', computed=(gen == 0))
+                            one_pro(hv, 2, la, ks, list(ks), keys)
             # ---- ClearKey endpoint ---------------------------------------------------------------
             from dashlive.server import models
             with da.app.app_context():
